@@ -138,8 +138,19 @@ def sharded_pipelines_as_iterator(
           ),
       )
 
+    merge_errors = []
+
+    def compute_result_or_keep_error(states_queue, result_queue):
+      try:
+        compute_result(states_queue, result_queue)
+      except Exception as e:  # pylint: disable=broad-exception-caught
+        # Raised to the caller by the iterator below.
+        merge_errors.append(e)
+
     thread = threading.Thread(
-        target=compute_result, args=(states_queue, result_queue), daemon=True
+        target=compute_result_or_keep_error,
+        args=(states_queue, result_queue),
+        daemon=True,
     )
     thread.start()
 
@@ -152,6 +163,14 @@ def sharded_pipelines_as_iterator(
   )
   logging.info('chainable: %s', f'iterator: {iterator}')
   yield from iterator
+  if calculate_agg_result:
+    # The merge ends after the stop marker that `iterate` has put; a failure of
+    # the merge is an error of this run, not of a thread nobody looks at.
+    thread.join()
+    if merge_errors:
+      raise RuntimeError(
+          'chainable: merging the aggregation states of the shards failed.'
+      ) from merge_errors[0]
 
 
 @dataclasses.dataclass(kw_only=True)
